@@ -251,9 +251,12 @@ class LinkLayerCryptoManager:
         """
         Generate a nonce according to the counter value, the direction and the IV.
         """
-        counter = pack("I",self.master_cnt if direction == BleDirection.MASTER_TO_SLAVE else self.slave_cnt)
-        direction = b"\x00" if direction == BleDirection.MASTER_TO_SLAVE else b"\x80"
-        return counter + direction + self.iv
+        # The packet counter is a 39-bit value sent in little-endian order, the
+        # direction bit is the most significant bit of the fifth byte.
+        counter = self.master_cnt if direction == BleDirection.MASTER_TO_SLAVE else self.slave_cnt
+        counter = pack("<Q", counter & 0x7fffffffff)[:5]
+        direction = 0x00 if direction == BleDirection.MASTER_TO_SLAVE else 0x80
+        return counter[:4] + bytes([counter[4] | direction]) + self.iv
 
     def encrypt(self, payload, direction=BleDirection.MASTER_TO_SLAVE):
         """
